@@ -32,6 +32,7 @@ type Config struct {
 	Race         bool
 	Deadline     time.Time
 	Bounds       map[string]int64
+	FallbackSec  int
 }
 
 type Program struct {
@@ -49,6 +50,7 @@ type Worker struct {
 	pr     *Program
 	cfg    *Config
 	solver *Solver
+	fallbacks int
 }
 
 func (w *Worker) buildPkg(p *ssa.Package) {
@@ -301,6 +303,7 @@ type HarnessResult struct {
 	Samples      []PathSample      `json:"samples"`
 	Vectors      []Vector          `json:"-"`
 	Truncated    bool              `json:"truncated"`
+	Fallbacks    int               `json:"queries_decided_by_fallback_solvers"`
 	Bounds       map[string]int64  `json:"bounds"`
 }
 
@@ -438,6 +441,7 @@ func explore(pr *Program, cfg *Config, harness *ssa.Function) *HarnessResult {
 			mu.Lock()
 			hr.Queries += s.Queries
 			hr.SolverSec += s.Time.Seconds()
+			hr.Fallbacks += w.fallbacks
 			if s.Errors > 0 {
 				inconcl[fmt.Sprintf("solver errors: %s", s.LastErr)] += s.Errors
 			}
